@@ -456,6 +456,12 @@ impl Authorizer {
 
                 if res {
                     successful = true;
+                    // `reject if` passes only when none of its alternatives matches
+                    if check.kind != CheckKind::Reject {
+                        break;
+                    }
+                } else if check.kind == CheckKind::Reject {
+                    successful = false;
                     break;
                 }
             }
@@ -517,6 +523,12 @@ impl Authorizer {
 
                     if res {
                         successful = true;
+                        // `reject if` passes only when none of its alternatives matches
+                        if check.kind != CheckKind::Reject {
+                            break;
+                        }
+                    } else if check.kind == CheckKind::Reject {
+                        successful = false;
                         break;
                     }
                 }
@@ -614,6 +626,12 @@ impl Authorizer {
 
                         if res {
                             successful = true;
+                            // `reject if` passes only when none of its alternatives matches
+                            if check.kind != CheckKind::Reject {
+                                break;
+                            }
+                        } else if check.kind == CheckKind::Reject {
+                            successful = false;
                             break;
                         }
                     }
